@@ -73,20 +73,14 @@ pub fn cases(ctx: &mut Ctx) {
         let b3b = fl(&Basis3::from_quaternion(&qn(&q2.iter().map(|r| Xq::new(r.clone())).collect::<Vec<_>>())));
         let w = ctx.generic(3);
         let cat = |parts: &[&[BigRat]]| -> Vec<BigRat> { parts.iter().flat_map(|p| p.iter().cloned()).collect() };
-        let (tha, thb) = (th.clone(), th2.clone());
-        let mk2a = move || Basis2::from_angle(Rad(Xq::new(tha.clone())));
-        let mk2b = move || Basis2::from_angle(Rad(Xq::new(thb.clone())));
-        ctx.case("basis2_mul", "nt:rotation", &cat(&[&b2a, &b2b]), &setup, &|_| mk2a() * mk2b());
-        ctx.case("basis2_invert", "nt:rotation", &b2a, &setup, &|_| mk2a().invert());
-        ctx.case("basis2_rotate_vector", "nt:rotation", &cat(&[&b2a, &w[..2]]), &setup, &|x| mk2a().rotate_vector(v2(&x[4..6])));
-        ctx.case("basis2_rotate_point", "nt:rotation", &cat(&[&b2a, &w[..2]]), &setup, &|x| mk2a().rotate_point(p2(&x[4..6])));
-        let (qa, qb) = (q1.clone(), q2.clone());
-        let mk3a = move || Basis3::from_quaternion(&qn(&qa.iter().map(|r| Xq::new(r.clone())).collect::<Vec<_>>()));
-        let mk3b = move || Basis3::from_quaternion(&qn(&qb.iter().map(|r| Xq::new(r.clone())).collect::<Vec<_>>()));
-        ctx.case("basis3_mul", "nt:rotation", &cat(&[&b3a, &b3b]), &|| (), &|_| mk3a() * mk3b());
-        ctx.case("basis3_invert", "nt:rotation", &b3a, &|| (), &|_| mk3a().invert());
-        ctx.case("basis3_rotate_vector", "nt:rotation", &cat(&[&b3a, &w]), &|| (), &|x| mk3a().rotate_vector(v3(&x[9..12])));
-        ctx.case("basis3_rotate_point", "nt:rotation", &cat(&[&b3a, &w]), &|| (), &|x| mk3a().rotate_point(p3(&x[9..12])));
+        ctx.case("basis2_mul", "nt:rotation", &cat(&[&b2a, &b2b]), &setup, &|x| b2(x) * b2(&x[4..]));
+        ctx.case("basis2_invert", "nt:rotation", &b2a, &setup, &|x| b2(x).invert());
+        ctx.case("basis2_rotate_vector", "nt:rotation", &cat(&[&b2a, &w[..2]]), &setup, &|x| b2(x).rotate_vector(v2(&x[4..6])));
+        ctx.case("basis2_rotate_point", "nt:rotation", &cat(&[&b2a, &w[..2]]), &setup, &|x| b2(x).rotate_point(p2(&x[4..6])));
+        ctx.case("basis3_mul", "nt:rotation", &cat(&[&b3a, &b3b]), &|| (), &|x| b3(x) * b3(&x[9..]));
+        ctx.case("basis3_invert", "nt:rotation", &b3a, &|| (), &|x| b3(x).invert());
+        ctx.case("basis3_rotate_vector", "nt:rotation", &cat(&[&b3a, &w]), &|| (), &|x| b3(x).rotate_vector(v3(&x[9..12])));
+        ctx.case("basis3_rotate_point", "nt:rotation", &cat(&[&b3a, &w]), &|| (), &|x| b3(x).rotate_point(p3(&x[9..12])));
         ctx.case("q_invert", "nt:rotation", &q1, &|| (), &|x| qn(x).invert());
         ctx.case("q_rotate_point", "nt:rotation", &cat(&[&q1, &w]), &|| (), &|x| qn(x).rotate_point(p3(&x[4..7])));
     }
